@@ -95,6 +95,10 @@ pub enum RealKind {
     FarFuture,
     TimeoutMax,
     TimeoutHugeSecs,
+    /// `timeout(Duration::ZERO)`: the deadline is "now", so it must fire at
+    /// one of the first checks (judged only on inputs with hundreds of
+    /// checks, where the no-deadline result cannot come out otherwise)
+    TimeoutZero,
 }
 
 #[derive(Clone, Copy, Debug, Serialize, Deserialize, PartialEq)]
@@ -1011,6 +1015,9 @@ impl C07 {
                         RealKind::TimeoutHugeSecs => {
                             cfg.timeout(Duration::from_secs(u64::MAX));
                         }
+                        RealKind::TimeoutZero => {
+                            cfg.timeout(Duration::ZERO);
+                        }
                     }
                     ops_of(cfg.diff_slices(&o, &n).ops())
                 });
@@ -1021,6 +1028,32 @@ impl C07 {
                     detail: format!("{:?}: {}", kind, m),
                 })?;
                 walk_ops(&real, &core.old, &core.new, core.or(), core.nr())?;
+                if *kind == RealKind::TimeoutZero {
+                    // judged only where it is decidable without knowing what
+                    // the real clock read: hundreds of checks, and a result
+                    // that expiry at any of the first checks changes
+                    let dry = builder_exec(&core, false, Dl::Abs, Sched::Never).map_err(|m| Fail {
+                        clause: "c07.panic",
+                        detail: m,
+                    })?;
+                    out.execs += 1;
+                    let early_differs = expired.ops != none.ops;
+                    if dry.probes >= 200 && early_differs && none.ops.len() >= 8 {
+                        out.count("real_clock_zero_timeout_judged", 1);
+                        if real == none.ops {
+                            return fail(
+                                "c07.real_clock_seam",
+                                format!(
+                                    "timeout(Duration::ZERO) on the real clock gave the no-deadline result ({} ops) although the diff makes {} deadline checks",
+                                    none.ops.len(),
+                                    dry.probes
+                                ),
+                            );
+                        }
+                    }
+                    digest_ops(&mut dig, &none.ops);
+                    continue;
+                }
                 let expect = if *kind == RealKind::Past { &expired.ops } else { &none.ops };
                 if &real != expect {
                     return fail(
@@ -1204,6 +1237,11 @@ impl Prop for C07 {
             seq.alg = Alg::Myers;
         }
         let entry_pick = rng.weighted(&[50, 20, 10, 8, 10, 4, 5, 5, 4, 6, 3, 4]);
+        if entry_pick == 8 && rng.chance(1, 2) {
+            // the zero-timeout judgement needs hundreds of checks
+            let alg = *rng.pick(&[Alg::Myers, Alg::Patience]);
+            seq = gen_seq_case(rng, Size::Large, Some(alg));
+        }
         if entry_pick == 9 {
             // unrelated inputs, plain lookups, ordinary hasher
             let (lo, hi) = match tier {
@@ -1253,6 +1291,7 @@ impl Prop for C07 {
                         RealKind::TimeoutHugeSecs,
                         RealKind::Past,
                         RealKind::FarFuture,
+                        RealKind::TimeoutZero,
                     ];
                     rng.shuffle(&mut ks);
                     ks
@@ -1398,6 +1437,7 @@ impl Prop for C07 {
             ("builder_both_setters", c("builder_both_setters")),
             ("plumbing_groups", c("plumbing_groups")),
             ("real_clock_passthrough", c("real_clock_passthrough")),
+            ("real_clock_zero_timeout_judged", c("real_clock_zero_timeout_judged")),
             ("expiry_between_two_checks", agg.faults[F_WORK_EXPIRED]),
             ("builder_reused_across_time_jump", c("builder_reused_across_time_jump")),
         ]
